@@ -315,4 +315,25 @@ theorem float_result_monotone_ieee (k : ℕ → ℚ) (hk : ∀ i, 0 ≤ k i) (x 
   flP_monotone 24 (by norm_num) (float_tree_monotone_ieee k hk x y hxy t)
 end IeeeInstances
 
+/-! ### order preservation reaches the SIMD back-end -/
+
+/-- order preservation reaches the SIMD back-end: with non-negative coefficients, a pointwise smaller RGBA16 row gives a pointwise
+    smaller-or-equal result through the lane-accurate model of the SSE4.1 horizontal kernels (`Fir.SimdU16x4.pixel`, equal to
+    `passInt` by Fir.C02), provided the `i64` accumulator does not overflow (`Fir.C03.headroom_u16`) -/
+theorem monotone_u16x4_sse4 (ks : List Int) (p : Nat) (r1 r2 : List Int) (start c : Nat) (hc : c < 4) (hp : p < 64)
+    (hk0 : ∀ k ∈ ks, 0 ≤ k) (hk : ∀ k ∈ ks, -2147483648 ≤ k ∧ k ≤ 2147483647)
+    (hb1 : ∀ i, 0 ≤ r1.getD i 0 ∧ r1.getD i 0 ≤ 65535) (hb2 : ∀ i, 0 ≤ r2.getD i 0 ∧ r2.getD i 0 ≤ 65535)
+    (hle : ∀ i, r1.getD i 0 ≤ r2.getD i 0)
+    (hx : -(2 ^ 63 : Int) ≤ 2 ^ (p - 1) + dotL ks ((List.range ks.length).map fun i => r1.getD (4 * (start + i) + c) 0) ∧
+          2 ^ (p - 1) + dotL ks ((List.range ks.length).map fun i => r1.getD (4 * (start + i) + c) 0) < 2 ^ 63)
+    (hy : -(2 ^ 63 : Int) ≤ 2 ^ (p - 1) + dotL ks ((List.range ks.length).map fun i => r2.getD (4 * (start + i) + c) 0) ∧
+          2 ^ (p - 1) + dotL ks ((List.range ks.length).map fun i => r2.getD (4 * (start + i) + c) 0) < 2 ^ 63) :
+    (Fir.SimdU16x4.pixel p r1 start ks).getD c 0 ≤ (Fir.SimdU16x4.pixel p r2 start ks).getD c 0 := by
+  rw [Fir.Proofs.PassInt.u16x4 p r1 start ks c hc hk hb1, Fir.Proofs.PassInt.u16x4 p r2 start ks c hc hk hb2]
+  apply Fir.Proofs.pass_monotone_u16 ks _ _ p hp hk0 (by simp) _ hx hy
+  intro i hi
+  simp only [List.length_map, List.length_range] at hi
+  simp only [List.getD_eq_getElem?_getD, List.getElem?_map, List.getElem?_range hi, Option.map_some, Option.getD_some]
+  simpa [List.getD_eq_getElem?_getD] using hle _
+
 end Fir.C18
